@@ -139,10 +139,12 @@ RULE_CONC = ('TLC (-simulate, seeded) generates concurrent PROGRAMS (one op list
 def lock_stages(q):
     c = {'Discipline': '"intended"', 'NOps': 2}
     sb = {'Writers': 'W2', 'Readers': 'R2' if q else 'R3'}
-    inv = ['RaceFree', 'LockOK', 'NoTornReply']
+    inv = ['RaceFree', 'LockOK', 'NoTornReply', 'NoDeadlock']
     return [{'kind': 'mc', 'name': 'lock', 'module': 'MC_Lock', 'subst': sb, 'consts': c, 'invariants': inv, 'workers': 16},
             {'kind': 'mc_neg', 'name': 'lock-asbuilt', 'module': 'MC_Lock', 'subst': {'Writers': 'W2', 'Readers': 'R2'}, 'consts': dict(c, Discipline='"asBuilt"'),
              'invariants': ['RaceFree'], 'expect': 'RaceFree'},
+            {'kind': 'mc_neg', 'name': 'lock-recursive-read', 'module': 'MC_Lock', 'subst': {'Writers': 'W2', 'Readers': 'R2'}, 'consts': dict(c, Discipline='"recursiveRead"'),
+             'invariants': ['NoDeadlock'], 'expect': 'NoDeadlock'},
             {'kind': 'ind', 'name': 'lock-inductive', 'module': 'LockInd', 'safety': 'Safety', 'unbounded_in': 'number of operations per goroutine, generations of the route',
              'consts': {'Writers': '{"w1", "w2"}', 'Readers': '{"r1", "r2", "r3"}', 'Discipline': '"intended"', 'NOps': 2},
              'neg_consts': {'Writers': '{"w1", "w2"}', 'Readers': '{"r1", "r2", "r3"}', 'Discipline': '"asBuilt"', 'NOps': 2}}]
